@@ -21,7 +21,7 @@ import itertools
 from vf.core import Check
 
 from coba.environments import Environments, SupervisedSimulation, CsvSource, ArffSource, LibSvmSource, ManikSource
-from coba.pipes import ListSource, Pipes, HeadRows, Reservoir
+from coba.pipes import ListSource, Pipes, HeadRows, Reservoir, LabelRows
 from coba.primitives import Categorical, Dense, Sparse
 from coba.context import CobaContext, NullLogger, MemoryCacher
 
@@ -31,6 +31,7 @@ CobaContext.search_paths = []
 
 # ------------------------------------------------------------------ alphabets
 
+NA = 'n/a'                                    # 'no declared label type dimension' (the source is not pre-labelled)
 LEVELS = ['b', 'a', 'c', 'd']                 # declared levels of a categorical label ('d' never occurs in the data)
 UNIVERSE = {                                  # code -> label value (first appearance order != sorted order)
     'str': ['b', 'a', 'c'],
@@ -88,7 +89,9 @@ def label_text(lab, code):
 
 # ------------------------------------------------------------------ building the real inputs + the expected examples
 
-ROWFORM = {'srows0': 'sparse rows without zero labels', 'hsrows': 'headed sparse rows', 'rows:pos': 'dense rows (positional call)', 'rows:srckw': 'dense rows (source= call)',
+ROWFORM = {'prerows': 'pre-labelled dense rows', 'prehrows': 'pre-labelled headed dense rows', 'presrows': 'pre-labelled sparse rows',
+           'prearffd': 'pre-labelled arff dense', 'prearffs': 'pre-labelled arff sparse', 'precsvh': 'pre-labelled csv+header',
+           'srows0': 'sparse rows without zero labels', 'hsrows': 'headed sparse rows', 'rows:pos': 'dense rows (positional call)', 'rows:srckw': 'dense rows (source= call)',
            'xy': '(X,Y)', 'pairs': 'source of (x,y) pairs', 'rows': 'dense rows', 'hrows': 'headed dense rows', 'srows': 'sparse rows',
            'csv': 'csv', 'csvh': 'csv+header', 'arffd': 'arff dense', 'arffs': 'arff sparse', 'libsvm': 'libsvm', 'manik': 'manik'}
 
@@ -98,6 +101,8 @@ def build(case):
     feats[i] / labs[i] = the expected context / the label of example i as python values (never handed to coba)."""
     d, lab, lt, ys = case['d'], case['lab'], case['lt'], case['ys']
     d, _, call = d.partition(':')
+    pre = d.startswith('pre')
+    if pre: d = d[3:]
     n = len(ys)
     take = case.get('take')
     f = case.get('f', 'dense')
@@ -205,6 +210,13 @@ def build(case):
             return ((ManikSource if d == 'manik' else LibSvmSource)(ListSource(lines)),), dict(kw)
     else:
         raise ValueError(d)
+    if pre:                                   # the caller labels the rows, the simulation sees a source of labelled rows
+        make1 = make
+        def make():
+            (src,), k = make1()
+            k = dict(k)
+            src = Pipes.join(src, LabelRows(k.pop('label_col'), case['decl']))
+            return (src,), k
     if call:
         make0 = make
         def make():
@@ -322,17 +334,23 @@ class C14(Check):
                 ncodes = 8 if lab in MULTI else 3
                 codes = [c for c in range(ncodes) if not (d in ('libsvm', 'manik') and lab in MULTI and not MSETS[c])]
                 if lab in MULTI and (n == 5 or (n == 4 and d not in ('xy', 'pairs', 'rows', 'srows', 'libsvm', 'manik'))): continue
-                for lt in LABEL_TYPES[lab]:
-                    for take in (takes if d != 'xy' else [None]):
-                        if n == 0:
-                            yield self.desc(d, f, w, col, by, lab, lt, take, [])
-                            continue
-                        for ys in itertools.product(codes, repeat=n):
-                            yield self.desc(d, f, w, col, by, lab, lt, take, list(ys))
+                pre = d.startswith('pre')
+                types = LABEL_TYPES[lab] if not pre else [None] + [t for t in LABEL_TYPES[lab] if t is not None]
+                for lt in types:
+                    for decl in (types if pre else [NA]):
+                        if pre and lt is None and decl is None and None not in LABEL_TYPES[lab]: continue      # multi-label is never inferred
+                        for take in (takes if d != 'xy' else [None]):
+                            if pre and take not in (None, 2): continue
+                            if n == 0:
+                                yield self.desc(d, f, w, col, by, lab, lt, take, [], decl)
+                                continue
+                            for ys in itertools.product(codes, repeat=n):
+                                yield self.desc(d, f, w, col, by, lab, lt, take, list(ys), decl)
 
     @staticmethod
-    def desc(d, f, w, col, by, lab, lt, take, ys):
+    def desc(d, f, w, col, by, lab, lt, take, ys, decl='n/a'):
         c = {'d': d, 'lab': lab, 'lt': lt, 'ys': ys}
+        if decl != NA: c['decl'] = decl
         if f is not None: c['f'] = f
         if w is not None: c['w'] = w
         if col is not None: c['col'] = col
@@ -371,6 +389,18 @@ class C14(Check):
             if lab in MULTI and lab != 'mstr': continue
             for by in ('hdr', 'idx'):
                 yield 'hsrows', 'dense', 2, 1, by, lab
+        for lab in py:                                     # pre-labelled sources: rows leave a LabelRows(label, declared type) joined by the
+            if lab == 'mint': continue                     # caller, the simulation gets the source only (+ label_type, take)
+            for col in ((0, 1, 2) if lab not in MULTI else (1,)):
+                yield 'prerows', 'dense', 2, col, 'idx', lab
+            yield 'prehrows', 'dense', 2, 1, 'hdr', lab
+            yield 'presrows', 'sparse', None, None, 'hdr', lab
+        for lab in ('cat', 'float', 'str'):
+            for by in ('hdr', 'idx'):
+                yield 'prearffd', 'dense', 2, 1, by, lab
+            yield 'prearffs', 'dense', 2, 1, 'hdr', lab
+        for lab in ('str', 'numstr'):
+            yield 'precsvh', 'dense', 2, 2, 'hdr', lab
         for lab in ('str', 'int', 'mstr'):                 # the other call styles of the constructor
             for d in ('rows:pos', 'rows:srckw'):
                 yield d, 'dense', 2, 1, 'idx', lab
@@ -414,7 +444,8 @@ class C14(Check):
         take = case.get('take')
         make, feats, labs = build(case)
         idx = list(range(n)) if take is None else list(Reservoir(take).filter(list(range(n))))
-        kinds = [lt] if lt is not None else ADMISSIBLE[lab]
+        eff = lt if lt is not None else case.get('decl', NA) if case.get('decl', NA) != NA else None     # an explicit label_type decides, else the declared one
+        kinds = [eff] if eff is not None else ADMISSIBLE[lab]
         rowform = ROWFORM[d]
         by = {'hdr': 'header', 'idx': 'index', None: 'none'}[case.get('by')]
         feat = f'{rowform} label_col={by}'
@@ -497,6 +528,12 @@ class C14(Check):
             rec.violation(K('context is not the features of the example'), f'interaction {k}: context {val!r} ({form}), expected {e!r}: {case}'); return
         # ---- rewards and actions
         lfeat = f'{GROUP.get(lab, lab)} labels as ' + {'c': 'classification', 'm': 'multi-label', 'r': 'regression'}[kind]
+        dsuffix = ''
+        if 'decl' in case:
+            decl = case['decl']
+            dsuffix = ('; source declares no type' if decl is None else '; source declares a type, no label_type' if lt is None else
+                       '; source declares the label_type' if decl == lt else '; source declares another type than label_type')
+            lfeat += dsuffix
         universe = UNIVERSE[lab]
         if kind == 'c':
             delist = lambda l: l[0] if isinstance(l, list) else l
@@ -517,7 +554,7 @@ class C14(Check):
                 all_want = [delist(l) for l in labs]
                 all_d = [l for i, l in enumerate(all_want) if l not in all_want[:i]]
                 if lab == 'cat':
-                    allowed = LEVELS + (['0'] if d == 'arffs' else [])
+                    allowed = LEVELS + (['0'] if d.endswith('arffs') else [])
                     if onehot:
                         ok = len(sample_d) <= len(A) <= len(allowed)
                     else:
@@ -582,9 +619,9 @@ class C14(Check):
                     try:
                         v = r(a)
                     except Exception as e:   # noqa
-                        rec.violation(K(f'reward raises {type(e).__name__}', f'label_type=r label delivered as {form}'), f'interaction {k}: {srepr(r)}({a!r}): {e!r}: {case}'); return
+                        rec.violation(K(f'reward raises {type(e).__name__}', f'label_type=r label delivered as {form}{dsuffix}'), f'interaction {k}: {srepr(r)}({a!r}): {e!r}: {case}'); return
                     if not isinstance(v, (int, float)) or abs(v + abs(a - y)) > 1e-9:
-                        rec.violation(K('reward is not the negative absolute error', f'label_type=r label delivered as {form}'), f'interaction {k}: label {y!r}, rewards({a!r}) = {v!r}: {case}'); return
+                        rec.violation(K('reward is not the negative absolute error', f'label_type=r label delivered as {form}{dsuffix}'), f'interaction {k}: label {y!r}, rewards({a!r}) = {v!r}: {case}'); return
                 rec.checked += 1
         else:
             raise ValueError(kind)
